@@ -360,7 +360,7 @@ def near_point(rng, q, L, lo, hi, bits=6):
             return wrap([a + b for a, b in zip(q, d)], L)
 
 
-def gen_history(rng, static, nops, T, offprotocol=False, init=None, few_queries=False):
+def gen_history(rng, static, nops, T, offprotocol=False, init=None, few_queries=False, prefix=None):
     case = dict(static)
     L = case["L"]
     n = case["n"]
@@ -378,6 +378,13 @@ def gen_history(rng, static, nops, T, offprotocol=False, init=None, few_queries=
     case["init"] = init
     case["T"] = T
     ops = []
+    for op in (prefix(pos) if prefix is not None else []):
+        ops.append(op)
+        if op["k"] == "add":
+            pos[op["g"]] = [fr(c) for c in op["p"]]
+        elif op["k"] == "remove":
+            for g in op["gs"]:
+                pos.pop(g, None)
     by_mol = {}
     for g, (mol, _) in enumerate(nodes):
         by_mol.setdefault(mol, []).append(g)
@@ -476,6 +483,31 @@ def preload_static(rng, count, extra):
         init.append([g, [rs(Fraction(c, scale)) for c in cell]])
         g += 1
     return static, init
+
+
+def multi_tree_prefix(rng, static, count0, pos):
+    """opening of the history on the pre-loaded engine: two `start` adds (the second one certainly finds
+    more than T points in the last tree), then the removal of a pre-loaded residue from the OLDER tree and
+    a query where it used to be, then a re-add"""
+    L = static["L"]
+    nodes = static["nodes"]
+    free = [g for g in range(count0, static["n"])]
+    a, b, c = free[0], free[1], free[len(free) // 2]
+    victim = count0 - 1 - rng.randrange(30)
+    old = pos[victim]
+    mol_c = nodes[c][0]
+    return [
+        dict(k="add", g=a, p=[rs(x) for x in rand_point(rng, L)], start=True),
+        dict(k="add", g=b, p=[rs(x) for x in rand_point(rng, L)], start=True),
+        dict(k="remove", mol=nodes[victim][0], gs=[victim]),
+        dict(k="get", g=victim),
+        dict(k="force", p=[rs(x) for x in near_point(rng, old, L, Fraction(1, 4), Fraction(3, 4))], g=c,
+             excl=[c]),
+        dict(k="force", p=[rs(x) for x in near_point(rng, old, L, Fraction(0), Fraction(1, 16))], g=c,
+             excl=[h for h in range(count0, static["n"]) if nodes[h][0] == mol_c]),
+        dict(k="add", g=victim, p=[rs(x) for x in near_point(rng, old, L, Fraction(1, 4), Fraction(3, 4))], start=False),
+        dict(k="snap"),
+    ]
 
 
 # ------------------------------------------------------------------------------------------- min image oracle
@@ -689,7 +721,8 @@ def run(ctx):
     for i in range(ctx.budget(1, 4)):
         count0 = literal + rng.choice([1, 0, 3])          # at the boundary (n = T: not yet) and above it
         static, init = preload_static(rng, count0, 24)
-        real_cases.append(gen_history(rng, static, rng.randint(50, 90), None, init=init, few_queries=True))
+        real_cases.append(gen_history(rng, static, rng.randint(50, 90), None, init=init, few_queries=True,
+                                      prefix=lambda pos, static=static, count0=count0: multi_tree_prefix(rng, static, count0, pos)))
     run_batch(ctx, real_cases, classes, "engine-real-T")
 
     # outside the protocol: correspondence only
